@@ -642,7 +642,9 @@ Definition c18_judge (a r : N) (vals : list str) (dl : option Z) (tmd : option m
   let tunnel_deadline := existsb (fun kv => str_eqb (fst kv) tdl_key) (omd tmd) in
   match exp, dl with
   | None, None => []
-  | Some d, Some d' => if (d <? 4611686018427387904)%Z then (if Z.eqb d d' then [] else fl 1801 a (zr r) d') else []
+  | Some d, Some d' => if (d <? 4611686018427387904)%Z then (if Z.eqb d d' then [] else fl 1801 a (zr r) d')
+                       else (* beyond 146 years only the order of magnitude is compared: never a short or past deadline *)
+                            (if (4611686018427387904 <=? d')%Z then [] else fl 1801 a (zr r) d')
   | None, Some _ => if tunnel_deadline then [] else fl 1802 a (zr r) 0
   | _, _ => fl 1802 a (zr r) 0
   end.
